@@ -33,6 +33,13 @@ type cellAccess struct {
 }
 type formatCase struct{ Case, HasFn, Cmd string }
 type mapRange struct{ File, Func, Operand, Fingerprint string }
+
+// posOrder: an ordering comparison between token positions (only meaningful inside one file: across
+// files it follows the schedule of the parser goroutines)
+type posOrder struct{ File, Func, Expr string }
+
+// globalWrite: a write to package-level state from a function body (state that survives a run)
+type globalWrite struct{ File, Func, Var, Kind string }
 type uncheckedOp struct{ File, Func, Kind, Expr, Guard string }
 
 type srcFacts struct {
@@ -40,6 +47,8 @@ type srcFacts struct {
 	LockUsers    []string
 	FormatCases  []formatCase
 	MapRanges    []mapRange
+	PosOrders    []posOrder
+	GlobalWrites []globalWrite
 	Unchecked    []uncheckedOp
 }
 
@@ -276,6 +285,20 @@ func extractTyped(repo string, f *srcFacts) error {
 					}
 					stack = append(stack, n)
 					switch x := n.(type) {
+					case *ast.BinaryExpr:
+						if x.Op == token.LSS || x.Op == token.LEQ || x.Op == token.GTR || x.Op == token.GEQ {
+							isPos := func(e ast.Expr) bool {
+								t := p.TypesInfo.TypeOf(e)
+								return t != nil && t.String() == "go/token.Pos"
+							}
+							if isPos(x.X) || isPos(x.Y) {
+								f.PosOrders = append(f.PosOrders, posOrder{File: rel, Func: name, Expr: nodeString(p.Fset, x)})
+							}
+						}
+					case *ast.IncDecStmt:
+						if v := pkgLevelVar(p, x.X); v != "" {
+							f.GlobalWrites = append(f.GlobalWrites, globalWrite{File: rel, Func: name, Var: v, Kind: "incdec"})
+						}
 					case *ast.RangeStmt:
 						if t := p.TypesInfo.TypeOf(x.X); t != nil {
 							if _, isMap := t.Underlying().(*types.Map); isMap {
@@ -300,6 +323,17 @@ func extractTyped(repo string, f *srcFacts) error {
 						}
 						f.Unchecked = append(f.Unchecked, uncheckedOp{File: rel, Func: name, Kind: "assert", Expr: nodeString(p.Fset, x)})
 					case *ast.AssignStmt:
+						if x.Tok != token.DEFINE {
+							for _, l := range x.Lhs {
+								if v := pkgLevelVar(p, l); v != "" {
+									kind := "assign"
+									if _, isIdent := l.(*ast.Ident); !isIdent {
+										kind = "element"
+									}
+									f.GlobalWrites = append(f.GlobalWrites, globalWrite{File: rel, Func: name, Var: v, Kind: kind})
+								}
+							}
+						}
 						// comma-ok assertions are checked: skip their TypeAssertExpr
 						if len(x.Lhs) == 2 && len(x.Rhs) == 1 {
 							if _, ok := x.Rhs[0].(*ast.TypeAssertExpr); ok {
@@ -337,11 +371,51 @@ func extractTyped(repo string, f *srcFacts) error {
 		a, b := f.MapRanges[i], f.MapRanges[j]
 		return a.File+a.Func+a.Operand < b.File+b.Func+b.Operand
 	})
+	sort.Slice(f.PosOrders, func(i, j int) bool {
+		a, b := f.PosOrders[i], f.PosOrders[j]
+		return a.File+a.Func+a.Expr < b.File+b.Func+b.Expr
+	})
+	sort.Slice(f.GlobalWrites, func(i, j int) bool {
+		a, b := f.GlobalWrites[i], f.GlobalWrites[j]
+		return a.File+a.Func+a.Var+a.Kind < b.File+b.Func+b.Var+b.Kind
+	})
 	sort.Slice(f.Unchecked, func(i, j int) bool {
 		a, b := f.Unchecked[i], f.Unchecked[j]
 		return a.File+a.Func+a.Kind+a.Expr < b.File+b.Func+b.Kind+b.Expr
 	})
 	return nil
+}
+
+// pkgLevelVar: the package-level variable written through the expression (x, x[i], x.f, *x), or ""
+func pkgLevelVar(p *packages.Package, e ast.Expr) string {
+	for {
+		switch x := e.(type) {
+		case *ast.Ident:
+			if v, ok := p.TypesInfo.Uses[x].(*types.Var); ok && v.Parent() == p.Types.Scope() {
+				return v.Name()
+			}
+			return ""
+		case *ast.IndexExpr:
+			e = x.X
+		case *ast.SelectorExpr:
+			// pkg.Var of another package
+			if id, ok := x.X.(*ast.Ident); ok {
+				if _, isPkg := p.TypesInfo.Uses[id].(*types.PkgName); isPkg {
+					if v, ok := p.TypesInfo.Uses[x.Sel].(*types.Var); ok {
+						return id.Name + "." + v.Name()
+					}
+					return ""
+				}
+			}
+			e = x.X
+		case *ast.StarExpr:
+			e = x.X
+		case *ast.ParenExpr:
+			e = x.X
+		default:
+			return ""
+		}
+	}
 }
 
 func runExtract(args []string) error {
@@ -380,6 +454,14 @@ func runExtract(args []string) error {
 		b.WriteString("]\n\ndef mapRanges : List MapRange := [\n")
 		for i, m := range f.MapRanges {
 			fmt.Fprintf(&b, "  ⟨%s, %s, %s, %s⟩%s\n", leanStr(m.File), leanStr(m.Func), leanStr(m.Operand), leanStr(m.Fingerprint), comma(i, len(f.MapRanges)))
+		}
+		b.WriteString("]\n\ndef posOrders : List PosOrder := [\n")
+		for i, m := range f.PosOrders {
+			fmt.Fprintf(&b, "  ⟨%s, %s, %s⟩%s\n", leanStr(m.File), leanStr(m.Func), leanStr(m.Expr), comma(i, len(f.PosOrders)))
+		}
+		b.WriteString("]\n\ndef globalWrites : List GlobalWrite := [\n")
+		for i, m := range f.GlobalWrites {
+			fmt.Fprintf(&b, "  ⟨%s, %s, %s, %s⟩%s\n", leanStr(m.File), leanStr(m.Func), leanStr(m.Var), leanStr(m.Kind), comma(i, len(f.GlobalWrites)))
 		}
 		b.WriteString("]\n\ndef uncheckedOps : List UncheckedOp := [\n")
 		for i, u := range f.Unchecked {
